@@ -186,6 +186,13 @@ def find_global_peaks(
         gv = torch.arange(crop_size, dtype=torch.float32) - ((crop_size - 1) / 2)
         dx_hat, dy_hat = integral_regression(cm_crops, xv=gv, yv=gv)
         offsets = torch.cat([dx_hat, dy_hat], dim=1)
+        # Keep the refined point inside its patch: when the patch holds negative values or
+        # has no mass, the expectation is not a convex combination of the grid (NaN, inf or
+        # far outside the patch). Offsets of non-negative patches are never changed by this.
+        half_patch = (crop_size - 1) / 2
+        offsets = torch.nan_to_num(
+            offsets, nan=0.0, posinf=half_patch, neginf=-half_patch
+        ).clamp(-half_patch, half_patch)
 
     # Apply offsets.
     refined_peaks = rough_peaks.clone()
@@ -326,6 +333,13 @@ def find_local_peaks(
         gv = torch.arange(crop_size, dtype=torch.float32) - ((crop_size - 1) / 2)
         dx_hat, dy_hat = integral_regression(cm_crops, xv=gv, yv=gv)
         offsets = torch.cat([dx_hat, dy_hat], dim=1)
+        # Keep the refined point inside its patch: when the patch holds negative values or
+        # has no mass, the expectation is not a convex combination of the grid (NaN, inf or
+        # far outside the patch). Offsets of non-negative patches are never changed by this.
+        half_patch = (crop_size - 1) / 2
+        offsets = torch.nan_to_num(
+            offsets, nan=0.0, posinf=half_patch, neginf=-half_patch
+        ).clamp(-half_patch, half_patch)
 
     # Apply offsets.
     refined_peaks = rough_peaks + offsets
